@@ -13,7 +13,7 @@ pub fn def() -> CheckDef {
         bounds_quick: "lax entry points: lax diagrams with <=3 nodes, <=2 hyperedges (<=5 node references; wirings enumerated, labels symbolic), four lens-shaped optics whose generator images carry pending unifications; strict core: diagrams W<=2, X<=1, S,T<=2, interfaces<=2; lens-shaped optics with forward object map in {A->[A], A->[A,A]}, reverse object map in {A->[A], A->[], A->[A,A]}, residual of 0, 1 or 2 objects per operation; functoriality on pairs W<=1, X<=1",
         bounds_thorough: "W<=3, X<=2; pairs W<=2",
         jobs,
-        budget_s: (170, 3000),
+        budget_s: (170, 1500),
     }
 }
 
@@ -123,7 +123,7 @@ fn oracle_functorial(_inp: &PV, out: &PV) -> T {
 pub fn jobs(tier: Tier, seed: u64) -> Vec<Job> {
     let per_job = Duration::from_secs(match tier {
         Tier::Quick => 60,
-        Tier::Thorough => 1200,
+        Tier::Thorough => 600,
     });
     let cfg = base_cfg(tier);
     let bx = match tier {
@@ -166,6 +166,8 @@ pub fn jobs(tier: Tier, seed: u64) -> Vec<Job> {
     keyed.sort_by_key(|(c, r, _)| (*c, *r));
     let mut strict: Vec<Job> = keyed.into_iter().map(|(c, _, k)| case_job(k, cfg.clone(), per_job, c <= 8 && tier == Tier::Quick)).collect();
     let mut lax = lax_jobs(tier);
+    let mut der = derivative_jobs(tier);
+    der.reverse();
     strict.reverse();
     lax.reverse();
     let mut out = vec![];
@@ -178,7 +180,13 @@ pub fn jobs(tier: Tier, seed: u64) -> Vec<Job> {
         if let Some(j) = lax.pop() {
             out.push(j);
         }
+        for _ in 0..2 {
+            if let Some(j) = der.pop() {
+                out.push(j);
+            }
+        }
     }
+    out.extend(der.into_iter().rev());
     out
 }
 
@@ -201,7 +209,7 @@ fn oracle_lax(inp: &PV, out: &PV) -> T {
     tm::and(vec![iso(&want, &c), iso(&adapted, &d)])
 }
 pub fn lax_jobs(tier: Tier) -> Vec<Job> {
-    let per_job = Duration::from_secs(if tier == Tier::Quick { 90 } else { 1200 });
+    let per_job = Duration::from_secs(if tier == Tier::Quick { 90 } else { 600 });
     let cfg = base_cfg(tier);
     let c8 = |v: u64| PV::T(tm::c(v, 8));
     let mut out = vec![];
@@ -217,6 +225,184 @@ pub fn lax_jobs(tier: Tier) -> Vec<Job> {
                 PV::List(vec![PV::Lax(f), c8(ff), c8(rf), c8(r as u64)])
             };
             out.push(case_job(crate::case!(format!("lax optic map_arrow/map_adapted fwd={} rev={} residual={} {}", ff, rf, r, sh.show()), gen, c14_lax, oracle_lax, 2), cfg.clone(), per_job, tier == Tier::Quick && sh.refs() <= 3));
+        }
+    }
+    out
+}
+
+// ------------------------------------------------------------------ derivative clause
+use crate::conv::{poly_arity, P_ADD, P_CONST, P_COPY, P_DISCARD, P_MUL, P_NEG};
+use crate::explore::{choose, fresh, vw, Infeasible};
+
+/// A monogamous acyclic polynomial circuit with the given operation kinds (in edge order): every node is
+/// produced exactly once (by an input position or an operation output, numbered in that order) and consumed
+/// exactly once (by an operation input or an output position); the consumer assignment is enumerated.
+fn gen_poly_circuit(kinds: &[u64], n_in: usize) -> RawLax {
+    let produced: usize = n_in + kinds.iter().map(|k| poly_arity(*k).1).sum::<usize>();
+    let consumed_by_ops: usize = kinds.iter().map(|k| poly_arity(*k).0).sum();
+    if consumed_by_ops > produced {
+        std::panic::panic_any(Infeasible);
+    }
+    let n_out = produced - consumed_by_ops;
+    let obj = fresh("R", crate::explore::lw(), None);
+    // enumerate a bijection nodes -> consumer slots (slots: operation inputs in order, then outputs)
+    let mut free: Vec<usize> = (0..produced).collect();
+    let mut slots: Vec<usize> = vec![];
+    for _ in 0..produced {
+        let i = choose(free.len());
+        slots.push(free.remove(i));
+    }
+    let mut next_node = n_in;
+    let mut p = 0;
+    let mut adj = vec![];
+    for k in kinds {
+        let (a, b) = poly_arity(*k);
+        let src: Vec<T> = slots[p..p + a].iter().map(|v| ci(*v)).collect();
+        p += a;
+        let tgt: Vec<T> = (next_node..next_node + b).map(ci).collect();
+        next_node += b;
+        adj.push((src, tgt));
+    }
+    let t: Vec<T> = slots[p..p + n_out].iter().map(|v| ci(*v)).collect();
+    let r = RawLax { nodes: vec![obj; produced], edges: kinds.iter().map(|k| cl(*k)).collect(), adj, quot: vec![], s: (0..n_in).map(ci).collect(), t };
+    // acyclic: every operation only reads nodes produced by inputs or by operations that can be ordered before it
+    let mut known: Vec<bool> = (0..produced).map(|u| u < n_in).collect();
+    let mut done = vec![false; kinds.len()];
+    loop {
+        let mut progress = false;
+        for (e, (src, tgt)) in r.adj.iter().enumerate() {
+            if !done[e] && src.iter().all(|s| known[RawLax::id(*s)]) {
+                done[e] = true;
+                for t in tgt {
+                    known[RawLax::id(*t)] = true;
+                }
+                progress = true;
+            }
+        }
+        if !progress {
+            break;
+        }
+    }
+    if !done.iter().all(|d| *d) {
+        std::panic::panic_any(Infeasible);
+    }
+    r
+}
+
+/// reference: forward evaluation and reverse accumulation of the transposed Jacobian on the plain circuit
+fn reverse_derivative(r: &RawLax, x: &[T], dy: &[T]) -> (Vec<T>, Vec<T>) {
+    let n = r.nodes.len();
+    let zero = tm::c(0, vw());
+    let kinds: Vec<u64> = r.edges.iter().map(|l| tm::as_const(*l).unwrap()).collect();
+    let id = |t: &T| RawLax::id(*t);
+    let mut val: Vec<Option<T>> = vec![None; n];
+    for (i, s) in r.s.iter().enumerate() {
+        val[id(s)] = Some(x[i]);
+    }
+    let mut order = vec![];
+    let mut done = vec![false; kinds.len()];
+    while order.len() < kinds.len() {
+        for (e, (src, tgt)) in r.adj.iter().enumerate() {
+            if done[e] || !src.iter().all(|s| val[id(s)].is_some()) {
+                continue;
+            }
+            let xs: Vec<T> = src.iter().map(|s| val[id(s)].unwrap()).collect();
+            let ys: Vec<T> = match kinds[e] {
+                P_ADD => vec![tm::add(xs[0], xs[1])],
+                P_MUL => vec![tm::mul(xs[0], xs[1])],
+                P_NEG => vec![tm::sub(zero, xs[0])],
+                P_COPY => vec![xs[0], xs[0]],
+                P_DISCARD => vec![],
+                P_CONST => vec![tm::c(5, vw())],
+                _ => unreachable!(),
+            };
+            for (t, y) in tgt.iter().zip(ys) {
+                val[id(t)] = Some(y);
+            }
+            done[e] = true;
+            order.push(e);
+        }
+    }
+    let fx: Vec<T> = r.t.iter().map(|t| val[id(t)].unwrap()).collect();
+    // adjoints: every node has exactly one consumer, so each adjoint is assigned once
+    let mut adj: Vec<T> = vec![zero; n];
+    for (j, t) in r.t.iter().enumerate() {
+        adj[id(t)] = dy[j];
+    }
+    for e in order.iter().rev() {
+        let (src, tgt) = &r.adj[*e];
+        let dz: Vec<T> = tgt.iter().map(|t| adj[id(t)]).collect();
+        match kinds[*e] {
+            P_ADD => {
+                adj[id(&src[0])] = dz[0];
+                adj[id(&src[1])] = dz[0];
+            }
+            P_MUL => {
+                adj[id(&src[0])] = tm::mul(val[id(&src[1])].unwrap(), dz[0]);
+                adj[id(&src[1])] = tm::mul(val[id(&src[0])].unwrap(), dz[0]);
+            }
+            P_NEG => adj[id(&src[0])] = tm::sub(zero, dz[0]),
+            P_COPY => adj[id(&src[0])] = tm::add(dz[0], dz[1]),
+            P_DISCARD => adj[id(&src[0])] = zero,
+            P_CONST => {}
+            _ => unreachable!(),
+        }
+    }
+    let dx: Vec<T> = r.s.iter().map(|s| adj[id(s)]).collect();
+    (fx, dx)
+}
+fn oracle_derivative(inp: &PV, out: &PV) -> T {
+    if out.is_panic() {
+        return tm::FALSE;
+    }
+    let r = inp.at(0).lax();
+    let (x, dy) = (inp.at(1).ts(), inp.at(2).ts());
+    let (fx, dx) = reverse_derivative(r, &x, &dy);
+    let want: Vec<T> = fx.into_iter().chain(dx).collect();
+    match out.at(0).some() {
+        // the adapted optic of any circuit is evaluable
+        None => tm::FALSE,
+        Some(v) => tm::and(vec![all_eq(&v.ts(), &want), out.at(1).t(), out.at(2).t()]),
+    }
+}
+pub fn derivative_jobs(tier: Tier) -> Vec<Job> {
+    let per_job = Duration::from_secs(if tier == Tier::Quick { 60 } else { 600 });
+    let cfg = base_cfg(tier);
+    let max_ops = if tier == Tier::Quick { 3 } else { 4 };
+    let all = [P_ADD, P_MUL, P_NEG, P_COPY, P_DISCARD, P_CONST];
+    let mut lists: Vec<Vec<u64>> = vec![vec![]];
+    let mut frontier: Vec<Vec<u64>> = vec![vec![]];
+    for _ in 0..max_ops {
+        let mut next = vec![];
+        for l in &frontier {
+            for k in all {
+                let mut m = l.clone();
+                m.push(k);
+                next.push(m);
+            }
+        }
+        lists.extend(next.iter().cloned());
+        frontier = next;
+    }
+    let mut out = vec![];
+    for kinds in lists {
+        let consumed: usize = kinds.iter().map(|k| poly_arity(*k).0).sum();
+        let made: usize = kinds.iter().map(|k| poly_arity(*k).1).sum();
+        for n_in in 0..=3usize {
+            let produced = n_in + made;
+            if consumed > produced || produced > 6 || produced - consumed > 3 {
+                continue;
+            }
+            let n_out = produced - consumed;
+            let k2 = kinds.clone();
+            let gen = move || {
+                let c = gen_poly_circuit(&k2, n_in);
+                let x: Vec<T> = (0..n_in).map(|_| fresh("x", vw(), None)).collect();
+                let dy: Vec<T> = (0..n_out).map(|_| fresh("dy", vw(), None)).collect();
+                PV::List(vec![PV::Lax(c), PV::of_ts(&x), PV::of_ts(&dy)])
+            };
+            let names: Vec<&str> = kinds.iter().map(|k| match *k { P_ADD => "add", P_MUL => "mul", P_NEG => "neg", P_COPY => "copy", P_DISCARD => "discard", _ => "const" }).collect();
+            out.push(case_job(crate::case!(format!("reverse derivative of circuit {:?} with {} inputs", names, n_in), gen, c14_derivative, oracle_derivative, 3), cfg.clone(), per_job, tier == Tier::Quick && kinds.len() <= 1));
         }
     }
     out
